@@ -287,9 +287,15 @@ def r11g(ctx):
     calls = [t for t in ast.walk(ly) if isinstance(t, ast.Tuple) and t.elts and is_self_attr(t.elts[0], "_shuffle_group") and len(t.elts) >= 3]
     if not calls:
         raise AnalysisError("anchor vanished: (self._shuffle_group, input, filter, ...) task of TaskShuffle._layer")
-    stage_var = next((n.target.id for n in ast.walk(ly) if isinstance(n, ast.For) and isinstance(n.target, ast.Name) and "range(stages)" in unparse(n.iter).replace(" ", "")), None)
+    # the stage loop: the outermost `for <v> in range(<n>)` around the grouping task
+    stage_var = None
+    n_ = calls[0]
+    while n_ is not None and n_ is not ly:
+        if isinstance(n_, ast.For) and isinstance(n_.target, ast.Name) and isinstance(n_.iter, ast.Call) and dotted(n_.iter.func) == "range" and len(n_.iter.args) == 1 and isinstance(n_.iter.args[0], ast.Name):
+            stage_var = n_.target.id
+        n_ = getattr(n_, "_parent", None)
     if stage_var is None:
-        raise AnalysisError("anchor vanished: `for stage in range(stages)` of TaskShuffle._layer")
+        raise AnalysisError("anchor vanished: the stage loop (`for stage in range(stages)`) of TaskShuffle._layer")
     for i, t in enumerate(calls):
         f = t.elts[2]
         vals = [d.value for d in defs.reaching(f.id, t)] if isinstance(f, ast.Name) else [f]
